@@ -176,7 +176,7 @@ class Monitors(object):
         return False
 
 
-def examine(prop, case, ctx, fail):
+def examine(prop, case, ctx, fail, modes=("eps", "round")):
     """returns a dismissal reason or None"""
     from .engine import Fail
 
@@ -191,8 +191,8 @@ def examine(prop, case, ctx, fail):
             return None
     if again is None or again.sig != fail.sig:
         return None  # observers perturbed the outcome: ignore them, admission still stands
-    if mon.log["fragile"]:
+    if "eps" in modes and mon.log["fragile"]:
         return "tolerance_band"
-    if mon.log["boundary"]:
+    if "round" in modes and mon.log["boundary"]:
         return "rounding_boundary"
     return None
